@@ -465,6 +465,10 @@ def get_paragraph_data(text, remove_pgp_signature=False):
     # in a header-only email we should not have a payload. Yet when this happens
     # we should no ignore it either, so let's treat this as "unknown"
     payload = mls.get_payload()
+    if not isinstance(payload, str):
+        # a "Content-Type: multipart/..." or "message/..." field made the email
+        # parser build sub-messages: this is not a control paragraph we can read
+        return {'unknown': text}
     if payload:
         items.append(('unknown', payload))
 
